@@ -1,4 +1,4 @@
-/* C37 (E2: the real escape_control_characters of src/daemon/StructuredLogger.cpp with the string and output-string-stream models):
+/* C37 (E2: the real StructuredLogger::escape_json (and the escape_control_characters it calls) of src/daemon/StructuredLogger.cpp with the string and output-string-stream models):
    for EVERY string of at most N bytes (all 256 byte values in every position) the escaped text
      - contains no byte below 0x20 (so a record built from it stays on ONE line) and no unescaped quote,
      - decodes, as the body of a JSON string per RFC 8259 (an independent decoder below), to exactly the bytes that were logged. */
@@ -36,7 +36,7 @@ void h_escape(void)
 {
   char in_text[N + 1]; uint64_t in_len; __CPROVER_assume(in_len <= N);
   strview v = {in_text, in_len};
-  str e = daemon__escape_control_characters(v);
+  str e = daemon__StructuredLogger__escape_json(v);      /* what StructuredLogger::log applies to the event name and to every field name and value */
   __CPROVER_assert(__exc == 0, "escaping does not throw");
   uint64_t g; __CPROVER_assume(g < e.n);
   __CPROVER_assert((unsigned char)e.p[g] >= 0x20, "the escaped text contains no control byte: the record stays on one line");
